@@ -43,8 +43,8 @@ class DoneStatus:
         return None
 
 
-class StreamDet:
-    """WritesStreamAssets + Collectable + Flyable, nothing else.  Follows the documented behaviour: the stream_resource
+class _DetCore:
+    """Collectable + Flyable + collect_asset_docs; see StreamDet / PagedDet.  Follows the documented behaviour: the stream_resource
     the first time (lazy: with the first datum), one stream_datum [last, index) when there are new frames, none otherwise;
     index None -> everything written.  greedy: ignores the index (a device that does not honour the protocol)."""
 
@@ -59,8 +59,8 @@ class StreamDet:
         self.avail = 0
         self.last = 0
         self.bundle = None
+        self.use_async = use_async
         if use_async:
-            self.get_index = self._get_index_async
             self.collect_asset_docs = self._collect_asset_docs_async
 
     # Flyable
@@ -85,11 +85,6 @@ class StreamDet:
     def describe_collect(self):
         return {self.name: {"source": f"sim://{self.name}", "dtype": "array", "shape": [4, 4], "external": "STREAM:"}}
 
-    # WritesStreamAssets
-    def get_index(self):
-        self.sess.reported(self.i, self.avail)
-        return self.avail
-
     def _docs(self, index):
         from event_model import ComposeStreamResource
         self.sess.asked(self.i, index)
@@ -108,23 +103,63 @@ class StreamDet:
     def collect_asset_docs(self, index=None):
         yield from self._docs(index)
 
-    async def _get_index_async(self):
-        await asyncio.sleep(0)
-        self.sess.reported(self.i, self.avail)
-        return self.avail
-
     async def _collect_asset_docs_async(self, index=None):
         for d in self._docs(index):
             await asyncio.sleep(0)
             yield d
 
 
+class StreamDet(_DetCore):
+    """WritesStreamAssets + Collectable + Flyable, nothing else.  Follows the documented behaviour: the stream_resource
+    the first time (lazy: with the first datum), one stream_datum [last, index) when there are new frames, none otherwise;
+    index None -> everything written.  greedy: ignores the index (a device that does not honour the protocol)."""
+
+    def __init__(self, i, sess, greedy=False, lazy=False, use_async=False):
+        super().__init__(i, sess, greedy=greedy, lazy=lazy, use_async=use_async)
+        if use_async:
+            self.get_index = self._get_index_async
+
+    # WritesStreamAssets
+    def get_index(self):
+        self.sess.reported(self.i, self.avail)
+        return self.avail
+
+    async def _get_index_async(self):
+        await asyncio.sleep(0)
+        self.sess.reported(self.i, self.avail)
+        return self.avail
+
+
+class PagedDet(_DetCore):
+    """EventCollectable + stream assets, but NOT WritesStreamAssets (no get_index): besides the frames it writes to a file it
+    hands back one event per new frame for a PV-backed key.  It can only be collected alone; the events number the stream (the
+    engine must not advance the counter for the stream datum on top of them, whatever return_payload says)."""
+
+    def describe_collect(self):
+        d = super().describe_collect()
+        d[f"{self.name}_t"] = {"source": f"sim://{self.name}/t", "dtype": "number", "shape": []}
+        return d
+
+    def _docs(self, index):
+        before = self.last
+        out = super()._docs(index)
+        self._new = (before, self.last)
+        return out
+
+    def collect(self):
+        a, b = getattr(self, "_new", (0, 0))
+        self._new = (b, b)
+        for k in range(a, b):
+            yield {"time": float(k), "data": {f"{self.name}_t": float(k)}, "timestamps": {f"{self.name}_t": float(k)}}
+
+
 class Session:
     """one run on a real RunEngine, recorded as Collect.tla events"""
 
-    def __init__(self, nd, ns, greedy=(), lazy=False, use_async=False):
+    def __init__(self, nd, ns, greedy=(), lazy=False, use_async=False, paged=()):
         self.nd, self.ns = nd, ns
-        self.dets = {i: StreamDet(i, self, greedy=i in greedy, lazy=lazy, use_async=use_async) for i in range(1, nd + 1)}
+        self.dets = {i: (PagedDet(i, self, greedy=i in greedy, lazy=lazy, use_async=use_async) if i in paged else
+                         StreamDet(i, self, greedy=i in greedy, lazy=lazy, use_async=use_async)) for i in range(1, nd + 1)}
         self.by_name = {d.name: d.i for d in self.dets.values()}
         self.by_res = {}            # stream_resource uid -> detector id
         self.events = [E("init", ns, ds=sorted(greedy), lz=bool(lazy))]
@@ -232,7 +267,8 @@ def make_plan(sess, ops, kickoff=True):
                 sess.note("env", f=list(o["f"]))
             elif o["op"] == "collect":
                 sess.expect = 1
-                yield Msg("collect", *[dets[i] for i in o["ds"]], name=o["s"])
+                kw = {"return_payload": o["payload"]} if "payload" in o else {}
+                yield Msg("collect", *[dets[i] for i in o["ds"]], name=o["s"], **kw)
             elif o["op"] == "checkpoint":
                 sess.note("checkpoint")
                 yield Msg("checkpoint")
@@ -256,7 +292,8 @@ def make_plan(sess, ops, kickoff=True):
 def execute(ops, nd, ns, greedy=(), lazy=False, use_async=False, kickoff=True):
     """run the operations on a fresh RunEngine; returns the Session (events, problems, exception)"""
     from bluesky.utils import RunEngineInterrupted
-    sess = Session(nd, ns, greedy=greedy, lazy=lazy, use_async=use_async)
+    paged = {i for o in ops if o["op"] == "declare" and o.get("paged") for i in o["ds"]}
+    sess = Session(nd, ns, greedy=greedy, lazy=lazy, use_async=use_async, paged=paged)
     RE = fresh_re()
     RE.msg_hook = sess.msg_hook
     RE.subscribe(sess.on_doc)
